@@ -81,7 +81,26 @@ pub fn exec(cx: &mut Ctx, c: &Case) {
             let ty = if c.pos > u32::MAX as u128 { SeekTy::U64 } else { SeekTy::U32 };
             ci.try_seek(ty, c.pos, false).map_err(|_| "seek")?;
         }
-        ci.try_apply(&mut buf[pre..pre + c.len]).map_err(|_| "apply")?;
+        // half of the cases deliver the slice in two or three consecutive calls (no seek in
+        // between), cut at seeded places: the keystream must not depend on the chunking
+        let mut cuts: Vec<usize> = Vec::new();
+        if c.kseed & 2 != 0 && c.len >= 2 {
+            let k1 = match (c.kseed >> 3) % 4 {
+                0 => 129 + (c.kseed >> 9) as usize % 64,
+                1 => 64 * (1 + (c.kseed >> 9) as usize % 4),
+                _ => 1 + (c.kseed >> 9) as usize % (c.len - 1),
+            }
+            .min(c.len - 1);
+            cuts.push(k1);
+            if (c.kseed >> 5) & 1 == 1 && c.len - k1 >= 2 {
+                cuts.push(k1 + 1 + (c.kseed >> 13) as usize % (c.len - k1 - 1));
+            }
+        }
+        let mut at = 0;
+        for &k in cuts.iter().chain(std::iter::once(&c.len)) {
+            ci.try_apply(&mut buf[pre + at..pre + k]).map_err(|_| "apply")?;
+            at = k;
+        }
         Ok::<(), &'static str>(())
     });
     api::force_backend(0);
@@ -126,7 +145,7 @@ pub fn run(cx: &mut Ctx) {
             4..=7 => rng.below(601) as usize,
             _ => rng.below(5001) as usize,
         };
-        let off = rng.below(64) as u128;
+        let off = if rng.below(4) == 0 { 0 } else { rng.below(64) as u128 };
         let limit_blocks: u128 = if layout == Layout::Ietf { 1 << 32 } else { 1 << 58 };
         let blk: u128 = match rng.below(12) {
             0 => 0,
